@@ -90,6 +90,8 @@ impl Prop for C16 {
             1 => "byte",
             _ => "full",
         });
+        // the same text in the other unit first: an answer must not depend on what was asked before
+        let _ = windows::windows(s, &WindowConfig::Full(!g));
         let r = windows::windows(s, &cfg);
         beat();
         if s.is_empty() {
